@@ -309,7 +309,13 @@ void TCP::write_serialization(uint8_t* buffer, uint32_t total_sz) {
     const uint32_t total_options_size = pad_options_size(options_size);
     // Set checksum to 0, we'll calculate it at the end
     checksum(0);
-    header_.doff = (sizeof(tcp_header) + total_options_size) / sizeof(uint32_t);
+    // A header that does not fit the 4 bit field (more than 40 bytes of options)
+    // can't be represented: reject it instead of silently truncating the offset
+    const uint32_t new_doff = (sizeof(tcp_header) + total_options_size) / sizeof(uint32_t);
+    if (new_doff > 15) {
+        throw serialization_error();
+    }
+    header_.doff = new_doff;
     stream.write(header_);
     for (options_type::const_iterator it = options_.begin(); it != options_.end(); ++it) {
         write_option(*it, stream);
